@@ -110,6 +110,23 @@ def gen_random(rnd, quick):
     for i in range(n):
         prog = kernelgen.gen_program(rnd, RANDOM_OPTS)
         yield prog, kernelgen.gen_history(rnd, RANDOM_OPTS, prog)
+    # a Component subclass with a public method marked @handler(False): it is no handler
+    prog = {'comps': {'1': {'chan': 'a', 'shape': 'implicit'}, '2': {'chan': 'a', 'shape': 'plain'}},
+            'handlers': {'1': {'comp': 1, 'names': ['x0'], 'chan': None, 'prio': 0, 'script': {}},
+                         '2': {'comp': 1, 'names': ['x1'], 'chan': None, 'prio': 0, 'script': {}, 'nohandler': True, 'live0': False},
+                         '3': {'comp': 2, 'names': ['x1'], 'chan': None, 'prio': 1, 'script': {}}},
+            'dyn': []}
+    for ch in (None, '*', '#1', 'a'):
+        yield prog, [['reg', 2, 1], ['fire', 1, {'name': 'x1', 'ch': ch}], ['fire', 2, {'name': 'x0', 'ch': ch}], ['flush', 1]]
+    # class Sub(A, Mixin), A(Base): A.k says override=True (it replaces Base.k), Mixin.k is an additional handler
+    prog = {'comps': {'1': {'chan': 'a', 'shape': 'mixin'}},
+            'handlers': {'1': {'comp': 1, 'names': ['x0'], 'chan': None, 'prio': 2, 'cls': 'base', 'meth': 'k', 'live0': False, 'script': {}},
+                         '2': {'comp': 1, 'names': ['x0'], 'chan': None, 'prio': 1, 'cls': 'a', 'meth': 'k', 'override': True, 'script': {}},
+                         '3': {'comp': 1, 'names': ['x0'], 'chan': None, 'prio': 0, 'cls': 'mixin', 'meth': 'k', 'script': {}},
+                         '4': {'comp': 1, 'names': ['x0'], 'chan': None, 'prio': -1, 'cls': 'mixin', 'meth': 'j', 'script': {}},
+                         '5': {'comp': 1, 'names': ['x1'], 'chan': None, 'prio': 0, 'cls': 'base', 'meth': 'b', 'script': {}}},
+            'dyn': []}
+    yield prog, [['fire', 1, {'name': 'x0', 'ch': None}], ['fire', 1, {'name': 'x1', 'ch': None}], ['flush', 1]]
     # the derived-class shape: base handler with and without override
     for ov in (True, False):
         prog = {'comps': {'1': {'chan': 'a', 'shape': 'derived'}},
